@@ -6,7 +6,7 @@ EXTENDS Embed
 MCPaths == { <<>>, <<"">>, <<"ID">>, <<"embed", "ID">>, <<"v", "ID">>, <<"video", "ID">>, <<"u", "status", "ID">>,
              <<"embed", "ID", "">>, <<"video", "", "ID", "", "">>,
              <<"embed">>, <<"embed", "">>, <<"video">>, <<"video", "">>, <<"v">>,
-             <<"ROOT", "embed", "ID">> }
+             <<"ROOT", "embed", "ID">>, <<"channels", "ID", "video", "">> }
 \* reduced product for the extractor-by-extractor machine
 SCarriers == {"iframe", "iframeTid", "objParam", "bq", "bqNoAnchor"}
 SSchemes == {"https", "schemeRel", "relPath"}
